@@ -176,7 +176,12 @@ func Main(t *testing.T, props map[string]Prop) {
 		curSeed, curIdx = seed, i
 		pet()
 		tape := NewTape(seed)
-		res := runOne(t, p, tape, seed, false)
+		dump := os.Getenv("SIM_DUMP_RUN") == strconv.Itoa(i)
+		res := runOne(t, p, tape, seed, dump)
+		if dump {
+			b, _ := json.MarshalIndent(map[string]interface{}{"events": renderLog(res.Log, 100000), "tape": res.Tape}, "", " ")
+			os.WriteFile(os.Getenv("SIM_DUMP_FILE"), b, 0o644)
+		}
 		sum.Runs++
 		sum.Steps += res.Steps
 		sum.Switches += res.Switches
